@@ -545,6 +545,7 @@ var ruleH6 = &Rule{
 		var obls []Obl
 		g := c.CG()
 		_ = g
+		nProc := 0
 		for _, proc := range liveModuleFuncs(c, "reader") {
 			if proc.Name() != "Process" || proc.Signature.Recv() == nil || len(proc.Params) == 0 {
 				continue
@@ -553,6 +554,7 @@ var ruleH6 = &Rule{
 			if sk == "" {
 				continue
 			}
+			nProc++
 			// same-receiver call tree
 			tree := map[*ssa.Function]bool{}
 			var walk func(fn *ssa.Function, d int)
@@ -704,6 +706,12 @@ var ruleH6 = &Rule{
 						Msg: "the flag " + short + " is toggled while a statement is built and read to decide what is rendered, but the return at " + c.pos(missing) + " is not preceded by its reset (and it is not initialised at the start of Process): the next execution of the same plan starts with the value the previous one left and renders different SQL"})
 				}
 			}
+		}
+		// the scan itself is the instance that must never vanish: a plan object without execution-scoped flags satisfies the rule
+		if nProc >= 40 {
+			obls = append(obls, Obl{Key: "planner Process methods scanned for execution-scoped flags", Pos: "-", Status: OK, Msg: fmt.Sprintf("%d Process methods, %d flags", nProc, len(obls))})
+		} else {
+			obls = append(obls, Obl{Key: "planner Process methods scanned for execution-scoped flags", Pos: "-", Status: Undecided, Msg: fmt.Sprintf("only %d live Process methods found under reader/ (expected the planners of three query languages)", nProc)})
 		}
 		return obls
 	},
